@@ -330,10 +330,10 @@ theorem step_sources {cfg : Cfg} {s s' : State} {a : Action} (h : step cfg s a =
                     · exact Or.inr h
                     · rw [h1n] at h; exact Or.inl h
                 · left; rw [hother q hq, h1n]
-              · unfold schedule; split
+              · simp only [schedule]; split
                 · exact h1d.1
                 · simp only [State.upd_same]; exact h1d.1
-              · unfold schedule; split
+              · simp only [schedule]; split
                 · exact h1d.2
                 · simp only [State.upd_same]; exact h1d.2
             · exact hafter _ (fun q => Or.inl (h1n q)) h1d.1 h1d.2 hx
@@ -363,6 +363,280 @@ theorem step_sources {cfg : Cfg} {s s' : State} {a : Action} (h : step cfg s a =
               rw [(storeOutputs_ctrlEq cfg _ p _ d).2.2]; simp
             rw [hoT] at hxe
             exact ⟨p, c, tr, d.data, (outTimeOf c d).2, hcur, htr, hb, hhas, hxe, Or.inl ⟨d, rfl, rfl, rfl, hot⟩⟩
+    · cases h
+  | tick n =>
+    left
+    simp only [step, stepTick] at h
+    split at h
+    · cases h
+    · cases h; exact hx
+
+end Mosaik
+
+namespace Mosaik
+
+/-! ### where the step in flight comes from -/
+
+theorem advance_cur (cfg : Cfg) (s : State) (q : Sid) : ∀ a, ((advance cfg s q).sims a).cur = (s.sims a).cur := by
+  intro a
+  unfold advance
+  simp only
+  split
+  · rw [State.fail_sims]
+  · rw [State.upd_sims]; split <;> rfl
+
+theorem advanceAll_cur (cfg : Cfg) (s : State) : ∀ a, ((advanceAll cfg s).sims a).cur = (s.sims a).cur := by
+  unfold advanceAll
+  apply foldl_inv (fun st => ∀ a, (st.sims a).cur = (s.sims a).cur)
+  · intro a; rfl
+  · intro st q _ h a
+    split
+    · exact h a
+    · rw [advance_cur, h a]
+
+theorem settle_cur (cfg : Cfg) (s : State) (p : Sid) : ∀ a, ((settle cfg s p).sims a).cur = (s.sims a).cur := by
+  intro a
+  unfold settle
+  simp only
+  have key : ∀ pc : PC, ((s.upd p fun x => { x with pc := pc }).sims a).cur = (s.sims a).cur := by
+    intro pc; rw [State.upd_sims]; split <;> rfl
+  split
+  · exact key _
+  · split
+    · split
+      · exact key _
+      · exact key _
+    · exact key _
+
+theorem notify_cur (cfg : Cfg) (s : State) (p : Sid) : ∀ a, ((notify cfg s p).sims a).cur = (s.sims a).cur := by
+  unfold notify
+  apply foldl_inv (fun st => ∀ a, (st.sims a).cur = (s.sims a).cur)
+  · intro a; rfl
+  · intro st tr _ ih a
+    split
+    · rw [(schedule_nextOnly st _ _ a).2.2.1]; exact ih a
+    · exact ih a
+
+theorem finish_cur (cfg : Cfg) (s : State) (p : Sid) (c : TT) :
+    ∀ a, ((finish cfg s p c).sims a).cur = if a = p then none else (s.sims a).cur := by
+  intro a
+  have hcc : ((clearCur s p c).sims a).cur = if a = p then none else (s.sims a).cur := by
+    simp only [clearCur, State.emit_sims]; rw [State.upd_sims]; split <;> rfl
+  have key : ((advanceAll cfg (notify cfg (clearCur s p c) p)).sims a).cur = if a = p then none else (s.sims a).cur := by
+    rw [advanceAll_cur, notify_cur, hcc]
+  unfold finish
+  simp only
+  split
+  · exact key
+  · split
+    · rw [settle_cur, ((prune_ctrlEq cfg _).fields a).2.2.2.1]; exact key
+    · rw [settle_cur]; exact key
+
+theorem afterStep_cur (cfg : Cfg) (s : State) (p : Sid) (c : TT) :
+    ∀ a, ((afterStep cfg s p c).sims a).cur = (s.sims a).cur ∨ ((afterStep cfg s p c).sims a).cur = none := by
+  intro a
+  have hrt : ∀ b, ((rtCheck cfg s p c).sims b) = s.sims b := by
+    intro b
+    unfold rtCheck
+    split
+    · rfl
+    · split
+      · split
+        · rw [State.fail_sims]
+        · rfl
+      · rfl
+  unfold afterStep
+  simp only
+  split
+  · rw [hrt]; exact Or.inl rfl
+  · split
+    · rw [finish_cur]
+      split
+      · exact Or.inr rfl
+      · rw [hrt]; exact Or.inl rfl
+    · rw [State.upd_sims]
+      split
+      · simp only; rename_i hb; subst hb; rw [hrt]; exact Or.inl rfl
+      · rw [hrt]; exact Or.inl rfl
+
+/-- the step in flight was in flight before, or was the head of the schedule -/
+theorem step_cur_sources {cfg : Cfg} {s s' : State} {a : Action} (h : step cfg s a = some s') :
+    ∀ b c, (s'.sims b).cur = some c → (s.sims b).cur = some c ∨ (s.sims b).next.head? = some c := by
+  intro b x hx
+  cases a with
+  | start p =>
+    left
+    simp only [step, stepStart] at h
+    split at h
+    · split at h
+      · cases h; rwa [advance_cur] at hx
+      · cases h; rwa [settle_cur, advance_cur] at hx
+    · cases h
+  | wake p =>
+    left
+    simp only [step, stepWake] at h
+    split at h
+    · cases hpc : (s.sims p).pc with
+      | awaitSettle a dl =>
+        simp only [hpc] at h
+        split at h
+        · have h0 : ∀ q, ((s.upd p fun y => { y with newer := false }).sims q).cur = (s.sims q).cur := by
+            intro q; rw [State.upd_sims]; split <;> rfl
+          have h1 : ∀ q, ((if cfg.rt.isSome then advance cfg (s.upd p fun y => { y with newer := false }) p
+              else (s.upd p fun y => { y with newer := false })).sims q).cur = (s.sims q).cur := by
+            intro q; split
+            · rw [advance_cur, h0]
+            · exact h0 q
+          generalize (if cfg.rt.isSome then advance cfg (s.upd p fun y => { y with newer := false }) p
+              else (s.upd p fun y => { y with newer := false })) = s2 at h h1
+          by_cases hfl : s2.failed.isSome = true
+          · simp only [hfl, if_true, Option.some.injEq] at h
+            subst h; rwa [h1] at hx
+          · simp only [hfl, Bool.false_eq_true, if_false, Option.some.injEq] at h
+            subst h; rwa [settle_cur, h1] at hx
+        · cases h
+      | init => simp [hpc] at h
+      | waitDeps t => simp [hpc] at h
+      | inStep => simp [hpc] at h
+      | inGet => simp [hpc] at h
+      | done => simp [hpc] at h
+    · cases h
+  | deps p =>
+    simp only [step, stepDeps] at h
+    split at h
+    · cases hpc : (s.sims p).pc with
+      | waitDeps t =>
+        simp only [hpc] at h
+        split at h
+        · cases hnext : (s.sims p).next with
+          | nil => simp [hnext] at h
+          | cons c rest =>
+            simp only [hnext, Option.some.injEq] at h
+            subst h
+            have hsub : ∀ q y, ((s.upd p fun z => { z with cur := some c, next := rest }).sims q).cur = some y →
+                (s.sims q).cur = some y ∨ (q = p ∧ y = c) := by
+              intro q y hy
+              rw [State.upd_sims] at hy
+              split at hy
+              · rename_i hq; simp only [Option.some.injEq] at hy; exact Or.inr ⟨hq, hy.symm⟩
+              · exact Or.inl hy
+            have hfin : (s.sims b).cur = some x ∨ (b = p ∧ x = c) := by
+              unfold beginStep at hx
+              simp only at hx
+              split at hx
+              · rw [State.fail_sims] at hx; exact hsub b x hx
+              · split at hx
+                · rw [State.fail_sims] at hx; exact hsub b x hx
+                · obtain ⟨f, hfctrl, hsnd⟩ := getInputData_snd cfg (s.upd p fun z => { z with cur := some c, next := rest }) p c
+                  rw [hsnd] at hx
+                  simp only [State.emit_sims] at hx
+                  apply hsub b x
+                  rw [State.upd_sims] at hx
+                  split at hx
+                  · rename_i hb; subst hb
+                    simp only [State.upd_same] at hx ⊢
+                    have := hfctrl ({ s.sims b with cur := some c, next := rest })
+                    simp only [SimSt.ctrl, Prod.mk.injEq] at this
+                    rw [this.2.2.2.1] at hx
+                    exact hx
+                  · rename_i hb
+                    rw [State.upd_other _ _ hb] at hx
+                    exact hx
+            rcases hfin with h1 | ⟨hb, hxc⟩
+            · exact Or.inl h1
+            · subst hb; subst hxc
+              right; rw [hnext]; rfl
+        · cases h
+      | init => simp [hpc] at h
+      | awaitSettle a dl => simp [hpc] at h
+      | inStep => simp [hpc] at h
+      | inGet => simp [hpc] at h
+      | done => simp [hpc] at h
+    · cases h
+  | setData p target entries =>
+    left
+    simp only [step, stepSetData] at h
+    split at h
+    · split at h
+      · cases h; rwa [State.fail_sims] at hx
+      · cases h
+        rw [State.upd_sims] at hx
+        split at hx <;> exact hx
+    · cases h
+  | getDataReq p target =>
+    left
+    simp only [step, stepGetDataReq] at h
+    split at h
+    · split at h
+      · cases h; rwa [State.fail_sims] at hx
+      · cases h; exact hx
+    · cases h
+  | setEvent p t =>
+    left
+    simp only [step, stepSetEvent] at h
+    split at h
+    · split at h
+      · cases h; rwa [State.fail_sims] at hx
+      · split at h
+        · cases h
+          rwa [(schedule_nextOnly s p _ b).2.2.1] at hx
+        · cases h; exact hx
+    · cases h
+  | stepReply p r =>
+    left
+    simp only [step, stepStepReply] at h
+    split at h
+    · cases hcur : (s.sims p).cur with
+      | none => simp [hcur] at h
+      | some c =>
+        simp only [hcur, Option.some.injEq] at h
+        subst h
+        have h1n : ∀ q, (((s.upd p fun y => { y with last := some c }).emit (.stepped p c)).sims q).cur = (s.sims q).cur := by
+          intro q; simp only [State.emit_sims]; rw [State.upd_sims]; split <;> rfl
+        have hafter : ∀ (s2 : State), (∀ q, (s2.sims q).cur = (s.sims q).cur) →
+            ((afterStep cfg s2 p c).sims b).cur = some x → (s.sims b).cur = some x := by
+          intro s2 hn hx2
+          rcases afterStep_cur cfg s2 p c b with h | h
+          · rw [h, hn] at hx2; exact hx2
+          · rw [h] at hx2; cases hx2
+        unfold processStepReply at hx
+        simp only at hx
+        cases r with
+        | bad => rw [State.fail_sims, h1n] at hx; exact hx
+        | none =>
+          simp only at hx
+          split at hx
+          · rw [State.fail_sims, h1n] at hx; exact hx
+          · exact hafter _ h1n hx
+        | int n =>
+          simp only at hx
+          split at hx
+          · rw [State.fail_sims, h1n] at hx; exact hx
+          · split at hx
+            · refine hafter _ ?_ hx
+              intro q; rw [(schedule_nextOnly _ p _ q).2.2.1, h1n]
+            · exact hafter _ h1n hx
+    · cases h
+  | dataReply p d =>
+    left
+    simp only [step, stepDataReply] at h
+    split at h
+    · cases hcur : (s.sims p).cur with
+      | none => simp [hcur] at h
+      | some c =>
+        simp only [hcur, Option.some.injEq] at h
+        subst h
+        have h1n : ∀ q, (((s.upd p fun y => { y with outTime := (outTimeOf c d).2 }).emit (.got p c (outTimeOf c d).2 d.data)).sims q).cur
+            = (s.sims q).cur := by
+          intro q; simp only [State.emit_sims]; rw [State.upd_sims]; split <;> rfl
+        unfold processDataReply at hx
+        simp only at hx
+        split at hx
+        · rw [State.fail_sims, h1n] at hx; exact hx
+        · rw [finish_cur] at hx
+          split at hx
+          · cases hx
+          · rw [((storeOutputs_ctrlEq cfg _ p _ d).1.fields b).2.2.2.1, h1n] at hx; exact hx
     · cases h
   | tick n =>
     left
